@@ -434,6 +434,43 @@ func runC16(c *Ctx) {
 			removed[name.Name] = true
 		}
 	}
+	// the removal may have been extracted into a helper that RunLuaScript calls on every path to DoString
+	helperNames := map[string]bool{}
+	for _, f := range scope {
+		if f == run {
+			continue
+		}
+		for _, sg := range CallsIn(f, "gopher-lua.LState.SetGlobal") {
+			args := sg.Common().Args
+			if len(args) != 3 {
+				continue
+			}
+			name, val := TermOf(args[1]), TermOf(args[2])
+			if name.Op == "const" && val.Op == "global" && strings.HasSuffix(val.Name, ".LNil") {
+				helperNames[name.Name] = true
+			}
+		}
+	}
+	for nm := range helperNames {
+		nm := nm
+		removes := MustDo(func(in ssa.Instruction) bool {
+			ci, ok := in.(ssa.CallInstruction)
+			if !ok || !NameMatch(CalleeName(ci.Common()), "gopher-lua.LState.SetGlobal") || len(ci.Common().Args) != 3 {
+				return false
+			}
+			name, val := TermOf(ci.Common().Args[1]), TermOf(ci.Common().Args[2])
+			return name.Op == "const" && name.Name == nm && val.Op == "global" && strings.HasSuffix(val.Name, ".LNil")
+		})
+		all := len(dos) > 0
+		for _, d := range dos {
+			if r, _ := CanReach(Entry(run), func(in ssa.Instruction) bool { return in == d.(ssa.Instruction) }, ReachOpts{CutInstr: removes}); r {
+				all = false
+			}
+		}
+		if all {
+			removed[nm] = true
+		}
+	}
 	var opened []string
 	total := 0
 	for _, op := range openers {
